@@ -175,8 +175,16 @@ def _materialize(case: Case, root: str):
         d = os.path.dirname(p)
         if not os.path.isdir(d):
             os.makedirs(d)
-        with open(p, 'w', newline='') as f:
-            f.write(text)
+        if text.startswith('@symlink:'):
+            # a file that is a symbolic link to another file of the case (target relative to the link's directory)
+            if os.path.lexists(p):
+                os.remove(p)
+            os.symlink(text[len('@symlink:'):], p)
+        else:
+            if os.path.islink(p):
+                os.remove(p)
+            with open(p, 'w', newline='') as f:
+                f.write(text)
         written.append(p)
     for d in case.incdirs:
         if d.startswith('='):
